@@ -27,6 +27,23 @@ def plan(tier, seed):
             mode = ("closure", "few") if sz <= 6 else ("depth", 2, "few")
         units.append(("plain", [spec], mode))
     unis["plain-alphabet exploration (K n<=4, U2c)"] = len(plain)
+    # every order in which the nodes can be expanded one by one (closure of the succ-only alphabet): new paths to nodes
+    # whose sub-diagram is already expanded appear in every possible way
+    succnets = [("k", k) for k, n in K.items() if len(n.sd[0]) >= 4 and len(n.sd[0]) <= (9 if tier == "quick" else 12)]
+    succnets += [("p4", a, b) for a, b in U.shard(U.P4_pairs(True), seed, 64 if tier == "quick" else 4) if 4 <= c04.sd_size(("p4", a, b)) <= 9]
+    for spec in succnets:
+        units.append(("succ", [spec], ("closure", "succ")))
+    unis["succ-only closure (all expansion orders)"] = len(succnets)
+    ks3 = sorted(U.kernel_small(3))
+    deep = [("u", ("k", a), ("k", b)) for a in ks3 for b in ks3 if a <= b]
+    deep = [d for d in deep if 6 <= c04.sd_size(d[1]) * c04.sd_size(d[2])]
+    if tier == "quick":
+        deep = U.shard(deep, seed, 3)
+    deep += [("u", ("u", ("k", "depth_overlap"), ("k", "depth_overlap")), ("k", "bistable")),
+             ("u", ("u", ("k", "nested"), ("k", "depth_overlap")), ("k", "toggle_neg"))]
+    for spec in deep:
+        units.append(("deepfirst", [spec], ("deepfirst",)))
+    unis["deep-first expansion orders on unions (reference-free depth check, up to 8 variables)"] = len(deep)
     fulld = 2
     fullnets = [("k", k) for k, n in K.items() if n.n <= 4 and len(n.sd[0]) <= (5 if tier == "quick" else 9)] + \
                [("idx", 2, i) for i in (U2 if tier != "quick" else [i for i in U2 if c04.sd_size(("idx", 2, i)) >= 3])]
@@ -94,12 +111,14 @@ def multipath(sd):
 def explore(net, spec, kind, mode, res):
     def invariant(net_, sd, hist, op, ret):
         return meta_check(net, sd) + find_node_check(net, sd)
-    if kind == "plain":
+    if kind == "succ":
+        ops = lambda n, s: [("succ", i) for i in s.node_ids() if not s.node_data(i)["expanded"]]
+    elif kind == "plain":
         lim = mode[1] if mode[0] == "closure" else mode[2]
         ops = lambda n, s: plain_ops(n, s, limits=lim, targets="nodes")
     else:
         ops = lambda n, s: full_ops(n, s)
-    ex = Explorer(net, ops, invariant, max_states=3000)
+    ex = Explorer(net, ops, invariant, max_states=3000 if kind != 'succ' else 20000)
     hists = ex.run(depth=None if mode[0] == "closure" else mode[1])
     vio = []
     for o, d, h in ex.violations:
@@ -130,6 +149,55 @@ def explore(net, spec, kind, mode, res):
                 exp_iso = set(sts[a]) == set(sts[b]) and ea == eb
                 if sds[a].is_isomorphic(sds[b]) != exp_iso:
                     vio.append(V("is-isomorphic-wrong", case, f"{net!r}: {hs[a]} vs {hs[b]}: expected {exp_iso}", site="is_isomorphic"))
+    return vio
+
+
+def deepfirst(net, spec, res):
+    """reference-free depth check on larger diagrams: expand the root (and one child), fully expand the sub-diagram of one
+    child / grandchild first, then complete the diagram in four different orders; depth and ids are checked after every call"""
+    vio = []
+
+    def run(hist_ops, completion):
+        sd = new_sd(net)
+        hist = []
+
+        def step(op):
+            nonlocal sd
+            sd, _ = apply(sd, op)
+            hist.append(op)
+            res["transitions"] += 1
+            for o, d in meta_check(net, sd):
+                vio.append(V(o, {"net": list(spec), "history": [list(x) for x in hist]}, f"{net!r}: after {tuple(hist)}: {d}", site="deepfirst"))
+                return False
+            return True
+
+        for op in hist_ops:
+            if not step(op):
+                return
+        if completion in ("asc", "desc"):
+            for _ in range(10000):
+                stubs = list(sd.stub_ids())
+                if not stubs:
+                    break
+                if not step(("succ", stubs[0] if completion == "asc" else stubs[-1])):
+                    return
+        else:
+            step((completion, None, None, None))
+        res["evals"] += 1
+        res["states"] += 1
+
+    base = new_sd(net)
+    children = sorted(base.node_successors(0, compute=True))
+    for X in children:
+        for comp in ("asc", "desc", "bfs", "dfs"):
+            run([("succ", 0), ("bfs", X, None, None)], comp)
+    for c in children:
+        b2 = new_sd(net)
+        b2.node_successors(0, compute=True)
+        for g in sorted(b2.node_successors(c, compute=True)):
+            for comp in ("asc", "desc", "bfs", "dfs"):
+                run([("succ", 0), ("succ", c), ("bfs", g, None, None)], comp)
+    res["traces"] += res["evals"]
     return vio
 
 
@@ -198,6 +266,10 @@ def run_unit(unit):
                         res["nontrivial"].add(repr(spec))
                     res["outcomes"].add(("summary", n))
                     res["states"] += 1
+                elif kind == "deepfirst":
+                    vio = deepfirst(net, spec, res)
+                    if len(vio) == 0:
+                        res["nontrivial"].add(repr(spec))
                 else:
                     vio = explore(net, spec, kind, mode, res)
         except CaseTimeout:
